@@ -14,7 +14,7 @@ use std::time::{Duration, Instant};
 /// root of the verification tree (evidence/, replays/, known_findings.txt, shim/, target/scratch);
 /// `bin/check` exports its own location so that a snapshot copy never writes into /verif
 pub fn verif_dir() -> String {
-    std::env::var("PGMC_verif_dir()").unwrap_or_else(|_| "/verif".to_string())
+    std::env::var("PGMC_VERIF_DIR").unwrap_or_else(|_| "/verif".to_string())
 }
 
 #[derive(Clone, Copy, PartialEq, Eq, Debug)]
@@ -254,12 +254,46 @@ pub fn journal_report(prop: &str, path: &str, recheck: &dyn Fn(&Value) -> Vec<St
     let mut vs: Vec<Violation> = best.into_values().collect();
     vs.sort_by_key(|v| v.size);
     println!("note: the {} check did not run to completion (a subject call that does not return, or the process was killed); re-executing the {} violation(s) it had recorded before", prop, vs.len());
-    for v in &vs {
-        let again = recheck(&v.case);
-        if !again.iter().any(|s| s == &v.sig) {
+    let _ = recheck;
+    let exe = std::env::current_exe().expect("current_exe");
+    for (k, v) in vs.iter().enumerate() {
+        // every re-execution in its own process with its own deadline: the journalled case may be the very input
+        // on which the subject does not return
+        let tmp = format!("{}.case{}.json", path, k);
+        let _ = std::fs::write(&tmp, v.case.to_string());
+        let mut child = match std::process::Command::new(&exe).args(["recheck-one", prop, &tmp]).env("PGMC_CHILD", "1").env_remove("PGMC_JOURNAL").stdout(std::process::Stdio::piped()).stderr(std::process::Stdio::null()).spawn() {
+            Ok(c) => c,
+            Err(_) => continue,
+        };
+        let t0 = Instant::now();
+        let mut hung = false;
+        loop {
+            match child.try_wait() {
+                Ok(Some(_)) => break,
+                Ok(None) if t0.elapsed() > Duration::from_secs(60) => {
+                    let _ = child.kill();
+                    let _ = child.wait();
+                    hung = true;
+                    break;
+                }
+                _ => std::thread::sleep(Duration::from_millis(20)),
+            }
+        }
+        let mut out = String::new();
+        if let Some(mut so) = child.stdout.take() {
+            use std::io::Read;
+            let _ = so.read_to_string(&mut out);
+        }
+        let _ = std::fs::remove_file(&tmp);
+        let again: Vec<String> = out.lines().filter_map(|l| l.strip_prefix("SIG ").map(|s| s.to_string())).collect();
+        let mut desc = v.desc.clone();
+        if hung {
+            desc = format!("{} [re-executing this case did not terminate within 60 s]", desc);
+        } else if !again.iter().any(|s| s == &v.sig) {
             eprintln!("note: journalled violation sig={} did not reproduce on re-execution (got {:?})", v.sig, again);
             continue;
         }
+        let v = &Violation { sig: v.sig.clone(), desc, case: v.case.clone(), size: v.size };
         if let Some(d) = known.lookup(prop, &v.sig) {
             println!("KNOWN-FINDING: property={} sig={} {}", prop, v.sig, d);
             continue;
